@@ -144,6 +144,8 @@ class StrSym:
         if isinstance(e, ast.BoolOp) and isinstance(e.op, ast.Or):
             out = []
             for v in e.values:
+                if isinstance(v, ast.Constant) and v.value is None:
+                    continue
                 out += self._ev(fi, mod, v, env, depth)
             return out
         if isinstance(e, ast.Name):
